@@ -109,6 +109,72 @@ func obsHedge(t *testing.T, calls []CallD, o OutD) bool {
 	return n == 1
 }
 
+// ---- the same routes with a pointer-valued result type: results match by deep equality, not by identity ----
+
+func ptrCallsOnly(calls []CallD) bool {
+	for _, c := range calls {
+		if c.K != "Result" && c.K != "Errors" {
+			return false
+		}
+	}
+	return true
+}
+
+func fresh(v int64) *int64 { return &v } // a new pointer every time: deeply equal, never identical
+
+func obsRetryPtr(calls []CallD, o OutD) bool {
+	b := retrypolicy.Builder[*int64]()
+	for _, c := range calls {
+		if c.K == "Result" {
+			b = b.HandleResult(fresh(c.R))
+		} else {
+			b = b.HandleErrors(c.errs()...)
+		}
+	}
+	n := 0
+	r, e := o.Go()
+	failsafe.Get(func() (*int64, error) { n++; return fresh(int64(r)), e }, b.WithMaxRetries(1).Build())
+	return n == 2
+}
+
+func obsAbortPtr(calls []CallD, o OutD) bool {
+	b := retrypolicy.Builder[*int64]().HandleIf(func(*int64, error) bool { return true }).WithMaxRetries(1)
+	for _, c := range calls {
+		if c.K == "Result" {
+			b = b.AbortOnResult(fresh(c.R))
+		} else {
+			b = b.AbortOnErrors(c.errs()...)
+		}
+	}
+	n := 0
+	r, e := o.Go()
+	failsafe.Get(func() (*int64, error) { n++; return fresh(int64(r)), e }, b.Build())
+	return n == 1
+}
+
+func obsHedgePtr(t *testing.T, calls []CallD, o OutD) bool {
+	n := 0
+	synctest.Test(t, func(t *testing.T) {
+		b := hedgepolicy.BuilderWithDelay[*int64](time.Hour).WithMaxHedges(1)
+		for _, c := range calls {
+			if c.K == "Result" {
+				b = b.CancelOnResult(fresh(c.R))
+			} else {
+				b = b.CancelOnErrors(c.errs()...)
+			}
+		}
+		r, e := o.Go()
+		failsafe.Get(func() (*int64, error) {
+			n++
+			if n == 1 {
+				return fresh(int64(r)), e
+			}
+			return fresh(1000), nil
+		}, b.Build())
+	})
+	return n == 1
+}
+
 func mkFailCase(route string, calls []CallD, o OutD, obs bool) func(int) string {
 	return func(id int) string {
 		return fmt.Sprintf("CaseFail %s %s %s %s %s", gZ(int64(id)), route, callsGallina(calls, false), o.Gallina(), gBool(obs))
@@ -183,6 +249,18 @@ func TestDrive_C12(t *testing.T) {
 			return fmt.Sprintf("CaseHedge %s %s %s %s", gZ(int64(id)), callsGallina(calls, true), o.Gallina(), gBool(oh))
 		}, map[string]any{"route": "hedge", "calls": callsGallina(calls, true), "outcome": o.Gallina(), "observed_cancel": oh}, true, "H"+key)
 		w.Stat(fmt.Sprintf("abort_calls=%d", len(calls)))
+		if ptrCallsOnly(calls) && len(calls) >= 1 {
+			// the same registrations and outcome with results of a pointer type
+			pa, ph, pr := obsAbortPtr(calls, o), obsHedgePtr(t, calls, o), obsRetryPtr(calls, o)
+			w.Add(func(id int) string {
+				return fmt.Sprintf("CaseAbort %s %s %s %s", gZ(int64(id)), callsGallina(calls, true), o.Gallina(), gBool(pa))
+			}, map[string]any{"route": "abort, pointer results", "calls": callsGallina(calls, true), "outcome": o.Gallina(), "observed_abort": pa}, true, "AP"+key)
+			w.Add(func(id int) string {
+				return fmt.Sprintf("CaseHedge %s %s %s %s", gZ(int64(id)), callsGallina(calls, true), o.Gallina(), gBool(ph))
+			}, map[string]any{"route": "hedge, pointer results", "calls": callsGallina(calls, true), "outcome": o.Gallina(), "observed_cancel": ph}, true, "HP"+key)
+			w.Add(mkFailCase("RRetry", calls, o, pr), map[string]any{"route": "retry, pointer results", "calls": callsGallina(calls, false), "outcome": o.Gallina(), "observed_failure": pr}, true, "RP"+key)
+			w.Stat("pointer_results")
+		}
 	}
 
 	// 1. exhaustive grid: every subset of the four registration kinds, three orders, every grid outcome.
